@@ -376,7 +376,8 @@ class Imply(Any):
         if type(condition) == str or issubclass(condition.__class__, puan.variable):
             condition = All(condition)
         self.condition = condition.negate()
-        self.consequence = consequence
+        # stored state is normalised: a str consequence becomes its variable (to_json / negate are called on it later)
+        self.consequence = puan.variable(consequence) if type(consequence) == str else consequence
         Any.__init__(self, self.condition, self.consequence, variable=variable)
 
     @staticmethod
